@@ -579,6 +579,15 @@ func (mn mon) Run(sh drv.Shard, c *drv.Ctx) {
 								TOp{Op: "log", Node: p + 1, Level: 1, Msg: "m", Attrs: big}, TOp{Op: "log", Node: p + 2, Level: 1, Msg: "m"}, TOp{Op: "log", Node: p + 3, Level: 2, Msg: "n"},
 								TOp{Op: "log", Node: p, Level: 1, Msg: "m", Attrs: big}, TOp{Op: "log", Node: p + 1, Level: 1, Msg: "m"}, TOp{Op: "log", Node: p, Level: 1, Msg: "m"})
 							all = append(all, ops5)
+							// order 6: a line whose buffer ends up at (or just below) the pool's keep/drop limit is
+							// written first; a child derived right afterwards must own its pre-rendered bytes - the
+							// parent's next record may not show up in it
+							big6 := []attrgen.Node{leaf("big", sval(strings.Repeat("C", 13900+pad*12)))}
+							ops6 := append([]TOp(nil), base...)
+							ops6 = append(ops6, TOp{Op: "log", Node: p, Level: 1, Msg: "m", Attrs: big6}, TOp{Op: "with", Node: p, Attrs: childAttr(0)},
+								TOp{Op: "log", Node: p, Level: 1, Msg: "m2", Attrs: []attrgen.Node{leaf("z", ival(9))}}, TOp{Op: "log", Node: p + 1, Level: 1, Msg: "m"},
+								TOp{Op: "log", Node: 0, Level: 2, Msg: "r"}, TOp{Op: "log", Node: p + 1, Level: 1, Msg: "m"})
+							all = append(all, ops6)
 						}
 						for _, o := range all {
 							cs := Case{Kind: kind, Ops: o, AddSource: idx%9 == 0}
